@@ -290,8 +290,9 @@ impl Prop for C11 {
                 }
             }
         }
-        if !prefill.is_empty() {
-            // unit boundaries were computed for an empty buffer
+        if !prefill.is_empty() || pred.out.as_deref() != Some(r.as_slice()) {
+            // unit boundaries were computed for an empty buffer / the response is framed in
+            // another (acceptable) way than the model's primary prediction: no position probes
             bounds.clear();
         }
         let msgd = if prefill.is_empty() {
